@@ -120,6 +120,7 @@ def run(ctx, rep):
     C08.index_entry_rule(ctx, rep, "C13.c")
     # ---- C13.b -------------------------------------------------------------------------------------
     joined(ctx, rep, "C13.b")
+    writer_joined_rule(ctx, rep, "C13.b")
     from rules import C03, C07
     from rules.C10 import borrow
     n = borrow(rep, ctx, C03, lambda o: o.rule == "R-ORDER" and re.search(r"/R-ORDER/(01|02)/", o.key), "C13.b")
@@ -153,6 +154,22 @@ def joined(ctx, rep, rule):
              [bb for bb, t in F.calls() if "callee" in t and callee(t).endswith("std::mem::drop") and "sender" in flow.backward_slice(F, op_place(t["args"][0]))["fields"]]
         okd = bool(dr) and bool(rc) and all(C.can_reach(F, d, rc[0][0]) or d == rc[0][0] for d in dr)
         rep.check(rule, f"channel-closed-first/{fn.split('::')[0]}", okd, where=F.loc(), what=f"{fn} closes the input channel before waiting (the worker can terminate)")
+
+
+def writer_joined_rule(ctx, rep, rule):
+    """RawPacker::finalize waits for the asynchronous pack writer on EVERY path to an Ok return (whether or not a last,
+    partly filled pack had to be flushed): a pack handed to the writer earlier may still be in flight, and its write error is
+    only reported through Actor::finalize. Decided by cutting the Actor::finalize call(s): no Ok return stays reachable."""
+    prog = ctx.prog
+    F = prog.find1(r"^rustic_core::blob::packer::RawPacker::<BE>::finalize$")
+    joins = [bb for bb, t in F.calls() if "callee" in t and callee(t).endswith("blob::packer::Actor::finalize")]
+    oks = [bi for bi, blk in enumerate(F.blocks) for s_ in blk["s"] if s_[0] == "=" and s_[1] == [0] and s_[2][0] == "agg" and s_[2][1][0] == "adt" and s_[2][1][2] == "Ok"]
+    ok = bool(joins) and bool(oks) and not any(o in F.reachable_from(0, cut_blocks=joins) for o in oks)
+    # and its status is propagated
+    kinds = [flow.try_ok_edges(F, j)[0] for j in joins]
+    okp = all(k in ("?", "return") for k in kinds)
+    rep.check(rule, "joined/RawPacker-waits-for-writer", ok and okp, where=F.loc(), what="RawPacker::finalize waits for the file writer (Actor::finalize, `?`) on every path before reporting success" if ok and okp else
+              "RawPacker::finalize can report success without having waited for the file writer: a failed write of a pack that was handed over earlier goes unnoticed and index + snapshot are written without it")
 
 
 def global_state_rule(ctx, rep, R="C13.g"):
